@@ -42,6 +42,9 @@ WIN_FAULTS = [["win", 5], ["win", 1314], ["win", 299], ["win", 87],
 PSUTIL_ERRS = ("NoSuchProcess", "ZombieProcess", "AccessDenied")
 SIGNAL_OPS = ("send_signal.TERM", "send_signal.CTRL_C", "suspend", "resume", "terminate", "kill")
 UNORDERED = ("net_connections", "open_files", "memory_maps")
+# getters that between them fill every per-block (oneshot) cache of every platform layer: the kinfo / basic-info record,
+# the credentials record, the name record, the task-info record, the Windows proc_info record and the memoized exe
+WARMERS = ("ppid", "uids", "name", "memory_info", "num_ctx_switches", "num_threads", "exe")
 RETRY_FNS = ("proc_cmdline", "proc_environ", "proc_cwd")     # natives under @retry_error_partial_copy
 
 
@@ -414,7 +417,7 @@ def survivable(env, op, fn, fault, mode, pidkind="norm", point=0):
     cls = errclass(fl, fault, fn)
     base = op.split(".")[0].split("@")[0]
     code = fault[1]
-    if op == "name@long" and point >= 1 and (
+    if op == "name@long" and (point >= 1 or fn in ("proc_cmdline", "proc_args")) and (   # (the cmdline() call of name())
             allowed_for_fault(env, op, pidkind, fn, fault, mode) & {"AD", "ZOMBIE"}):
         return ("front-end name(): AccessDenied/ZombieProcess from cmdline() -> keep the truncated name", LONG15)
     # front end, all platforms: exe() falls back to guessing from the cmdline on AccessDenied,
@@ -552,15 +555,22 @@ def run_once(env, case):
     if case.get("cached"):
         p.name()
     expected_name = p._name
-    env.mode = case.get("mode", "alive")
-    env.plan = {int(i): f for i, f in case.get("faults", [])}
-    env.sticky = tuple(case["sticky"]) if case.get("sticky") else None
-    env.begin()
+    def arm():
+        env.mode = case.get("mode", "alive")
+        env.plan = {int(i): f for i, f in case.get("faults", [])}
+        env.sticky = tuple(case["sticky"]) if case.get("sticky") else None
+        env.begin()
     try:
         if case.get("oneshot"):
             with p.oneshot():
+                # history inside ONE oneshot() block: the block's cache is filled by other getters while the process
+                # is alive and nothing fails; only then does the process change state (mode) and the fault plan start
+                for w in case.get("warm") or ():
+                    do_op(env, p, w)
+                arm()
                 v = do_op(env, p, case["op"])
         else:
+            arm()
             v = do_op(env, p, case["op"])
         res = ("ok", norm_value(case["op"], canon(v)))
     except BaseException as e:   # noqa: BLE001
@@ -968,6 +978,40 @@ def enumerate_flavour(flavour, tier, seed):
                                         stats["pair_runs"] += 1
                                         if len(r2["fired"]) == 2:
                                             note(c2, r2, V0)
+    # (2w) the same single faults inside a oneshot() block whose cache was filled (by OTHER getters, WARMERS) while the
+    #      process was alive, the process changing state only afterwards: what the error translation says must follow
+    #      the kernel's present answer, not the block's cached record; and the 0-deviation value inside such a block is
+    #      the same as outside
+    warm = [w for w in WARMERS if w in ops]
+    stats["warm_runs"] = 0
+    for pidkind in pidkinds_for(flavour):
+        for op in ops:
+            if op == "as_dict" or (pidkind != "norm" and (
+                    op in SIGNAL_OPS or op == "wait" or "." in op and op.split(".")[0] in ("nice", "rlimit", "cpu_affinity"))):
+                continue
+            base = {"pidkind": pidkind, "cached": True, "op": op, "oneshot": True, "warm": warm}
+            r0 = run_once(env, {"pidkind": pidkind, "cached": True, "op": op})
+            rw = run_once(env, base)
+            stats["zero_runs"] += 2
+            if r0["kind"] != "ok":
+                continue            # (reported by the main loop where it matters)
+            V0 = r0["res"][1]
+            if rw["kind"] != "ok" or rw["res"][1] != V0:
+                viol.append({"cause": "warm-oneshot-differs:%s:%s" % (flavour, op),
+                             "msg": "%s() inside a oneshot() block after %r: %s %r; outside the block: %r"
+                                    % (op, warm, rw["kind"], rw["detail"] or rw["res"][1], V0),
+                             "case": dict(base, flavour=flavour)})
+                continue
+            for i in range(len(rw["points"])):
+                for f in faults:
+                    for mode in modes_for(flavour, pidkind):
+                        if mode.startswith("probe-") and errclass(flavour, f, rw["points"][i]) not in ("nsp", "enoent?"):
+                            continue
+                        case = dict(base, faults=[[i, f]], mode=mode)
+                        r1 = run_once(env, case)
+                        stats["warm_runs"] += 1
+                        assert r1["fired"] and r1["fired"][0][0] == i, (case, r1["fired"], r1["points"])
+                        note(case, r1, V0)
     # (3) post-processing / record variants, documented names
     for sc in special_cases(env):
         stats["special"] += 1
